@@ -6,7 +6,7 @@ import itertools
 import os
 
 from vf.explore.deviate import explore, PlanHook, Run
-from vf.harness import use_world, outcome, freeze, sample
+from vf.harness import use_world, outcome, freeze, sample, guarded
 from vf.simk.world import World, FD
 
 ID = "C14"
@@ -131,7 +131,7 @@ def worker(chunk):
     w, p = mk_world(seed)
     use_world(w)
     w.logging = False
-    return [run_case(c, (w, p)) for c in cases]
+    return [guarded(run_case, c, (w, p)) for c in cases]
 
 
 # ------------------------------------------------------------- F part
@@ -272,5 +272,5 @@ def replay(ctx, case):
         return {"violated": bool(r["bad"]), "viols": r["bad"]}
     w, p = mk_world(ctx.seed)
     use_world(w)
-    bad = run_case(tuple(case), (w, p))
+    bad = guarded(run_case, tuple(case), (w, p))
     return {"violated": bool(bad), "viols": bad}
